@@ -3,7 +3,10 @@
 //! the directory and re-opened by the real code.
 //!
 //! Protocol (model side: lean/CkbVerif/Driver/C09.lean):
-//!   cfg <max_file_size>                 -> ok                       (fresh empty directory)
+//!   cfg <max_file_size> [<lru-cap>]     -> ok                       (fresh empty directory; round 6:
+//!                                                                    capacity of the read-handle LRU, default 256)
+//!   cache                               -> cache=<id,..|->          (round 6: ids of the cached read
+//!                                                                    handles, most recently used first)
 //!   open                                -> ok <number> | err
 //!   append <hex>                        -> ok | err                 (number = current number())
 //!   retrieve <i>                        -> some <hex> | none | err
@@ -14,6 +17,13 @@
 //!         probe item is appended and read back; the main history continues from the uncut state)
 //!   cut <idxLen> <fid> <len|rm>         -> ok          (destructive: the handle is dropped, the
 //!                                                       directory is cut; an `open` follows)
+//!   raw <fid:off,..|-> <tail> <id:len,..|->  -> ok   (round 6: the directory is REPLACED by an arbitrary
+//!        one: INDEX = these entries + <tail> junk bytes, data file <id> = <len> bytes of the pattern
+//!        byte j = (id*16 + j + 1) mod 256; files 0..3 always exist; the handle is dropped; `open` follows.
+//!        After `raw` / `cutfile` the case is outside the property's quantifier: answers are compared
+//!        with the model, the prefix oracle is off)
+//!   cutfile <fid> <len>                 -> ok   (round 6, power loss: ANY data file, older ones
+//!        included, cut to a prefix; the handle is dropped; `open` follows)
 //!
 //! Stream `top` (`vh-core C09 top`, model args `C09 top`): the layer above, the real
 //! `ckb_freezer::Freezer` — see `mod top` at the end of this file for its protocol.
@@ -30,8 +40,8 @@ fn file_name(id: u32) -> String {
     format!("blk{id:06}")
 }
 
-fn open_dir(dir: &Path, max: u64) -> Result<FF, std::io::Error> {
-    let r = FreezerFilesBuilder::new(dir.to_path_buf()).max_file_size(max).enable_compression(false).build();
+fn open_dir(dir: &Path, max: u64, limit: usize) -> Result<FF, std::io::Error> {
+    let r = FreezerFilesBuilder::new(dir.to_path_buf()).max_file_size(max).open_files_limit(limit).enable_compression(false).build();
     match r {
         Ok(mut f) => {
             f.preopen()?;
@@ -106,10 +116,18 @@ fn apply_cut(dir: &Path, idx_len: u64, fid: u32, flen: Option<u64>) {
     }
 }
 
+/// round 6: the ids in the read-handle LRU, most recently used first
+fn cache_line(f: &FF) -> String {
+    let ids = f.verif_cached_ids();
+    format!("cache={}", if ids.is_empty() { "-".to_string() } else { ids.iter().map(|i| i.to_string()).collect::<Vec<_>>().join(",") })
+}
+
 struct Sim {
     dir: PathBuf,
     scratch: PathBuf,
     max: u64,
+    /// capacity of the read-handle LRU (`open_files_limit`)
+    limit: usize,
     f: Option<FF>,
     /// ground truth for the oracle: items that must be retrievable (1-based)
     items: Vec<Vec<u8>>,
@@ -176,7 +194,7 @@ fn cutopen(out: &mut Out, sim: &mut Sim, idx_len: u64, fid: u32, flen: Option<u6
     apply_cut(&sim.scratch, idx_len, fid, flen);
     let op = format!("cutopen {} {} {}", idx_len, fid, flen.map(|l| l.to_string()).unwrap_or("rm".into()));
     let what = format!("after {op}");
-    let ans = match std::panic::catch_unwind(std::panic::AssertUnwindSafe(|| open_dir(&sim.scratch, sim.max))) {
+    let ans = match std::panic::catch_unwind(std::panic::AssertUnwindSafe(|| open_dir(&sim.scratch, sim.max, sim.limit))) {
         Ok(Ok(mut f)) => {
             let n = Sim::check_prefix(out, &mut f, expect, min_keep, &what);
             let number = f.number();
@@ -312,7 +330,7 @@ fn batch_append(out: &mut Out, rng: &mut Rng, sim: &mut Sim, max: u64, counter: 
     out.op(&format!("cut {} {} {}", il, head, dl.map(|l| l.to_string()).unwrap_or("rm".into())), "ok");
     out.count("cut-batch");
     // reopen (destructive)
-    match open_dir(&sim.dir, sim.max) {
+    match open_dir(&sim.dir, sim.max, sim.limit) {
         Ok(mut f) => {
             let n = Sim::check_prefix(out, &mut f, &expect_full, keep, "after batch cut + open");
             out.op("open", &format!("ok {}", f.number()));
@@ -329,13 +347,14 @@ fn batch_append(out: &mut Out, rng: &mut Rng, sim: &mut Sim, max: u64, counter: 
 
 fn run_case(out: &mut Out, rng: &mut Rng, base: &Path, n_ops: usize, all_cuts: bool) {
     let max = *rng.pick(&[20u64, 32, 50, 64, 100]);
+    let limit = *rng.pick(&[2usize, 3, 256, 256]);
     let dir = base.join("main");
     let scratch = base.join("scratch");
     let _ = fs::remove_dir_all(&dir);
     fs::create_dir_all(&dir).unwrap();
-    out.begin_case(&format!("max={max}"));
-    out.op(&format!("cfg {max}"), "ok");
-    let mut sim = Sim { dir, scratch, max, f: None, items: vec![] };
+    out.begin_case(&format!("max={max} lru={limit}"));
+    out.op(&format!("cfg {max} {limit}"), "ok");
+    let mut sim = Sim { dir, scratch, max, limit, f: None, items: vec![] };
     let mut counter = 0u8;
     let mut rollovers = 0;
     let mut cuts = 0;
@@ -343,7 +362,7 @@ fn run_case(out: &mut Out, rng: &mut Rng, base: &Path, n_ops: usize, all_cuts: b
     // open
     let do_open = |out: &mut Out, sim: &mut Sim, min_keep: usize, cand: &[Vec<u8>]| {
         sim.f = None;
-        match open_dir(&sim.dir, sim.max) {
+        match open_dir(&sim.dir, sim.max, sim.limit) {
             Ok(mut f) => {
                 let n = Sim::check_prefix(out, &mut f, cand, min_keep, "after open");
                 out.op("open", &format!("ok {}", f.number()));
@@ -462,6 +481,18 @@ fn run_case(out: &mut Out, rng: &mut Rng, base: &Path, n_ops: usize, all_cuts: b
                 }
                 out.op(&format!("retrieve {i}"), &line);
                 out.count("retrieve");
+                if n >= 2 {
+                    // and an old item: a handle that was evicted (miss -> put) or is promoted (hit)
+                    let j = rng.range(1, 2.min(n));
+                    let f = sim.f.as_mut().unwrap();
+                    let line = retrieve_line(f, j);
+                    let want = format!("some {}", hex(&sim.items[j as usize - 1]));
+                    if line != want {
+                        out.oracle_fail("retrieve-mismatch", &format!("item={j} got={line} want={want}"));
+                    }
+                    out.op(&format!("retrieve {j}"), &line);
+                    out.op("cache", &cache_line(sim.f.as_ref().unwrap()));
+                }
             }
             16..=17 => {
                 let n = sim.items.len() as u64;
@@ -491,6 +522,13 @@ fn run_case(out: &mut Out, rng: &mut Rng, base: &Path, n_ops: usize, all_cuts: b
                 out.count("disk");
             }
         }
+        // round 6: the read-handle LRU and the data files on disk after every operation
+        if let Some(f) = sim.f.as_ref() {
+            out.op("cache", &cache_line(f));
+            let _ = f.sync_all();
+            out.op("disk", &disk_line(&sim.dir));
+            out.count("cache");
+        }
     }
     if sim.f.is_some() {
         out.op("disk", &disk_line(&sim.dir));
@@ -501,28 +539,336 @@ fn run_case(out: &mut Out, rng: &mut Rng, base: &Path, n_ops: usize, all_cuts: b
     sim.f = None;
 }
 
+/// round 6: the byte pattern of data files written by `raw`
+fn pattern(id: u32, len: u64) -> Vec<u8> {
+    (0..len).map(|j| ((id as u64 * 16 + j + 1) % 256) as u8).collect()
+}
+
+fn ents_str(ents: &[(u32, u64)]) -> String {
+    if ents.is_empty() { "-".into() } else { ents.iter().map(|(f, o)| format!("{f}:{o}")).collect::<Vec<_>>().join(",") }
+}
+
+fn files_str(files: &[(u32, u64)]) -> String {
+    let v: Vec<String> = files.iter().filter(|(_, l)| *l > 0).map(|(i, l)| format!("{i}:{l}")).collect();
+    if v.is_empty() { "-".into() } else { v.join(",") }
+}
+
+fn parse_pairs<T: std::str::FromStr>(s: &str) -> Vec<(u32, T)>
+where
+    T::Err: std::fmt::Debug,
+{
+    if s == "-" {
+        return vec![];
+    }
+    s.split(',').map(|p| { let (a, b) = p.split_once(':').unwrap(); (a.parse().unwrap(), b.parse().unwrap()) }).collect()
+}
+
+/// `raw`: replace the directory by an arbitrary one
+fn raw_setup(dir: &Path, ents: &[(u32, u64)], tail: u64, files: &[(u32, u64)]) {
+    let _ = fs::remove_dir_all(dir);
+    fs::create_dir_all(dir).unwrap();
+    let mut idx = vec![];
+    for (f, o) in ents {
+        idx.extend_from_slice(&f.to_le_bytes());
+        idx.extend_from_slice(&o.to_le_bytes());
+    }
+    idx.extend(std::iter::repeat(0xABu8).take(tail as usize));
+    fs::write(dir.join("INDEX"), idx).unwrap();
+    for id in 0..4u32 {
+        let len = files.iter().find(|(i, _)| *i == id).map(|(_, l)| *l).unwrap_or(0);
+        fs::write(dir.join(file_name(id)), pattern(id, len)).unwrap();
+    }
+    for (id, len) in files.iter().filter(|(i, _)| *i >= 4) {
+        fs::write(dir.join(file_name(*id)), pattern(*id, *len)).unwrap();
+    }
+}
+
+fn op_raw(out: &mut Out, sim: &mut Sim, ents: &[(u32, u64)], tail: u64, files: &[(u32, u64)]) {
+    sim.f = None;
+    raw_setup(&sim.dir, ents, tail, files);
+    out.op(&format!("raw {} {} {}", ents_str(ents), tail, files_str(files)), "ok");
+    out.count("raw");
+}
+
+fn op_cutfile(out: &mut Out, sim: &mut Sim, fid: u32, len: u64) {
+    sim.f = None;
+    let p = sim.dir.join(file_name(fid));
+    let f = fs::OpenOptions::new().write(true).create(true).truncate(false).open(p).unwrap();
+    let cur = f.metadata().unwrap().len();
+    f.set_len(len.min(cur)).unwrap();
+    out.op(&format!("cutfile {fid} {len}"), "ok");
+    out.count("cutfile");
+}
+
+/// `open` with no oracle (the directory is outside the property's quantifier): Err and panic both
+/// answer `err` (the repair loop reading before the start of the INDEX underflows)
+fn op_open_raw(out: &mut Out, sim: &mut Sim) -> bool {
+    sim.f = None;
+    let (dir, max, limit) = (sim.dir.clone(), sim.max, sim.limit);
+    match std::panic::catch_unwind(std::panic::AssertUnwindSafe(|| open_dir(&dir, max, limit))) {
+        Ok(Ok(f)) => {
+            out.op("open", &format!("ok {}", f.number()));
+            sim.f = Some(f);
+            out.count("open-raw-ok");
+            true
+        }
+        Ok(Err(_)) => {
+            out.op("open", "err");
+            out.count("open-raw-err");
+            false
+        }
+        Err(_) => {
+            out.op("open", "err");
+            out.count("open-raw-panic");
+            false
+        }
+    }
+}
+
+/// after a raw open: the whole observable state, then one append and what it left
+fn probe_raw(out: &mut Out, sim: &mut Sim) {
+    let n = sim.f.as_ref().unwrap().number();
+    out.op("disk", &disk_line(&sim.dir));
+    for i in 0..=n {
+        let l = retrieve_line(sim.f.as_mut().unwrap(), i);
+        out.op(&format!("retrieve {i}"), &l);
+    }
+    let f = sim.f.as_mut().unwrap();
+    let r = f.append(n, PROBE);
+    let _ = f.sync_all();
+    out.op(&format!("append {}", hex(PROBE)), if r.is_ok() { "ok" } else { "err" });
+    let l = retrieve_line(sim.f.as_mut().unwrap(), n);
+    out.op(&format!("retrieve {n}"), &l);
+    out.op("disk", &disk_line(&sim.dir));
+    out.op("cache", &cache_line(sim.f.as_ref().unwrap()));
+}
+
+/// round 6: EVERY small directory — all index-entry sequences of length 0..=3 over
+/// fid in 0..nfid x off in 0..=3, x every length 0..=3 of each data file x a clean or partial tail —
+/// opened by the real `FreezerFilesBuilder::build` + `preopen` and compared with the decision table
+fn run_raw_exhaustive(out: &mut Out, base: &Path, nfid: u32) {
+    let vals: Vec<(u32, u64)> = (0..nfid).flat_map(|f| (0..=3u64).map(move |o| (f, o))).collect();
+    let mut seqs: Vec<Vec<(u32, u64)>> = vec![vec![]];
+    let mut last: Vec<Vec<(u32, u64)>> = vec![vec![]];
+    for _ in 0..3 {
+        let mut next = vec![];
+        for s in &last {
+            for v in &vals {
+                let mut t = s.clone();
+                t.push(*v);
+                next.push(t);
+            }
+        }
+        seqs.extend(next.iter().cloned());
+        last = next;
+    }
+    let mut lens: Vec<Vec<u64>> = vec![vec![]];
+    for _ in 0..nfid {
+        lens = lens.iter().flat_map(|l| (0..=3u64).map(move |x| { let mut t = l.clone(); t.push(x); t })).collect();
+    }
+    let mut sim = Sim { dir: base.join("main"), scratch: base.join("scratch"), max: 4, limit: 2, f: None, items: vec![] };
+    // the repair loop underflows (a debug-build panic, caught and answered `err`) on every directory
+    // none of whose entries fits: keep stderr quiet while enumerating them
+    let hook = std::panic::take_hook();
+    std::panic::set_hook(Box::new(|_| {}));
+    for tail in [0u64, 5] {
+        for fl in &lens {
+            let files: Vec<(u32, u64)> = fl.iter().enumerate().map(|(i, l)| (i as u32, *l)).collect();
+            out.begin_case(&format!("raw tail={tail} files={}", files_str(&files)));
+            out.op("cfg 4 2", "ok");
+            let mut ok = 0;
+            let mut err = 0;
+            for ents in &seqs {
+                op_raw(out, &mut sim, ents, tail, &files);
+                if op_open_raw(out, &mut sim) {
+                    probe_raw(out, &mut sim);
+                    ok += 1;
+                } else {
+                    err += 1;
+                }
+            }
+            if ok > 0 && err > 0 {
+                out.nontrivial(format!("raw tail={tail} files={}", files_str(&files)));
+            }
+        }
+    }
+    std::panic::set_hook(hook);
+    sim.f = None;
+}
+
+/// round 6, power loss: a history with several rollovers, then data files — OLDER ones too — cut
+/// to prefixes (and sometimes the INDEX), re-opened.  Oracle on the implementation alone (theorem
+/// `powerloss_open_never_wrong_bytes`): the open succeeds, `number` does not grow, and no
+/// `retrieve` returns other bytes than the item appended at that position (`Err` is allowed for an
+/// item whose file is short).  Then a `truncate` into a short file: the zero-fill of `set_len`
+/// (theorem `powerloss_then_truncate_returns_zero_filled_bytes`) is counted, not failed.
+fn run_powerloss_case(out: &mut Out, rng: &mut Rng, base: &Path) {
+    let max = *rng.pick(&[12u64, 20, 32]);
+    let dir = base.join("main");
+    let _ = fs::remove_dir_all(&dir);
+    fs::create_dir_all(&dir).unwrap();
+    let limit = *rng.pick(&[2usize, 3, 256]);
+    out.begin_case(&format!("powerloss max={max} lru={limit}"));
+    out.op(&format!("cfg {max} {limit}"), "ok");
+    let mut sim = Sim { dir, scratch: base.join("scratch"), max, limit, f: None, items: vec![] };
+    if !op_open_raw(out, &mut sim) {
+        out.oracle_fail("open-fails", "fresh directory");
+        return;
+    }
+    let mut counter = 0u8;
+    let k = rng.range(5, 10);
+    for _ in 0..k {
+        let item = gen_item(rng, max, &mut counter);
+        let f = sim.f.as_mut().unwrap();
+        let n = f.number();
+        let r = f.append(n, &item);
+        out.op(&format!("append {}", hex(&item)), if r.is_ok() { "ok" } else { "err" });
+        sim.items.push(item);
+    }
+    let _ = sim.f.as_mut().unwrap().sync_all();
+    out.op("disk", &disk_line(&sim.dir));
+    let idx = read_index(&sim.dir);
+    let head = idx.last().unwrap().0;
+    // cut 1..3 data files; at least one OLDER than the head when there is one
+    let mut short_older = false;
+    let ncut = rng.range(1, 3);
+    for c in 0..ncut {
+        let fid = if c == 0 && head > 0 { rng.below(head as u64) as u32 } else { rng.below(head as u64 + 1) as u32 };
+        let cur = fs::metadata(sim.dir.join(file_name(fid))).map(|m| m.len()).unwrap_or(0);
+        // biased to entry boundaries of that file (+-1)
+        let offs: Vec<u64> = idx.iter().filter(|(f, _)| *f == fid).map(|(_, o)| *o).collect();
+        let len = match rng.below(3) {
+            0 if !offs.is_empty() => { let o = *rng.pick(&offs); (o + rng.below(3)).saturating_sub(1).min(cur) }
+            1 => 0,
+            _ => rng.range(0, cur),
+        };
+        if fid < head && len < cur { short_older = true; }
+        op_cutfile(out, &mut sim, fid, len);
+    }
+    if rng.chance(1, 3) {
+        let il = rng.range(12, idx.len() as u64 * 12);
+        apply_cut(&sim.dir, il, head, Some(fs::metadata(sim.dir.join(file_name(head))).map(|m| m.len()).unwrap_or(0)));
+        out.op(&format!("cut {} {} {}", il, head, fs::metadata(sim.dir.join(file_name(head))).map(|m| m.len()).unwrap_or(0)), "ok");
+    }
+    if !op_open_raw(out, &mut sim) {
+        out.oracle_fail("powerloss-open-fails", "a directory whose INDEX starts with the default entry must open");
+        return;
+    }
+    let n = sim.f.as_ref().unwrap().number();
+    if n < 1 || n > sim.items.len() as u64 + 1 {
+        out.oracle_fail("powerloss-number-grew", &format!("number={n} appended={}", sim.items.len()));
+    }
+    out.op("disk", &disk_line(&sim.dir));
+    let mut lost = 0;
+    for i in 0..=n {
+        let r = sim.f.as_mut().unwrap().retrieve(i);
+        match &r {
+            Ok(Some(d)) => {
+                if i < 1 || i >= n || *d != sim.items[i as usize - 1] {
+                    out.oracle_fail("powerloss-wrong-bytes", &format!("item {i}: got {}", hex(d)));
+                }
+            }
+            Ok(None) => {
+                if i >= 1 && i < n {
+                    out.oracle_fail("powerloss-item-none", &format!("item {i} below number {n} reads None"));
+                }
+            }
+            Err(_) => {
+                lost += 1;
+                if i < 1 || i >= n {
+                    out.oracle_fail("powerloss-err-outside", &format!("item {i}"));
+                }
+            }
+        }
+        let l = match r { Ok(Some(d)) => format!("some {}", hex(&d)), Ok(None) => "none".into(), Err(_) => "err".into() };
+        out.op(&format!("retrieve {i}"), &l);
+    }
+    if lost > 0 {
+        out.count("powerloss-items-unreadable-after-open");
+    }
+    // a truncate (reorg) into the damaged region
+    if n > 2 {
+        let t = rng.range(1, n - 2);
+        let r = sim.f.as_mut().unwrap().truncate(t);
+        out.op(&format!("truncate {t}"), if r.is_ok() { "ok" } else { "err" });
+        let n2 = sim.f.as_ref().unwrap().number();
+        for i in 1..n2 {
+            let l = retrieve_line(sim.f.as_mut().unwrap(), i);
+            if l.starts_with("some") && l != format!("some {}", hex(&sim.items[i as usize - 1])) {
+                out.count("finding-powerloss-truncate-zero-fill");
+            }
+            out.op(&format!("retrieve {i}"), &l);
+        }
+        let _ = sim.f.as_mut().unwrap().sync_all();
+        out.op("disk", &disk_line(&sim.dir));
+    }
+    if short_older {
+        out.nontrivial(format!("powerloss max={max} items={:?}", sim.items.iter().map(|i| i.len()).collect::<Vec<_>>()));
+    }
+    sim.f = None;
+}
+
 /// Replay of a recorded case: the op lines are executed literally on the real code.
 fn replay_case(out: &mut Out, base: &Path, ops: &[String]) {
     let dir = base.join("main");
     let scratch = base.join("scratch");
-    let mut sim = Sim { dir, scratch, max: 0, f: None, items: vec![] };
+    let mut sim = Sim { dir, scratch, max: 0, limit: 256, f: None, items: vec![] };
     let mut cand: Vec<Vec<u8>> = vec![];
     let mut last_full = 0usize;
+    // after `raw` / `cutfile` the directory is outside the property's quantifier: no prefix oracle
+    let mut raw_mode = false;
     for line in ops {
         let t: Vec<&str> = line.split_whitespace().collect();
         match t[0] {
             "case" => {
                 out.begin_case(&t[2..].join(" "));
             }
+            "raw" => {
+                raw_mode = true;
+                let ents: Vec<(u32, u64)> = parse_pairs(t[1]);
+                let files: Vec<(u32, u64)> = parse_pairs(t[3]);
+                op_raw(out, &mut sim, &ents, t[2].parse().unwrap(), &files);
+            }
+            "cutfile" => {
+                raw_mode = true;
+                op_cutfile(out, &mut sim, t[1].parse().unwrap(), t[2].parse().unwrap());
+            }
+            "open" if raw_mode => {
+                op_open_raw(out, &mut sim);
+            }
+            "append" | "retrieve" | "truncate" if raw_mode => {
+                let f = sim.f.as_mut().expect("handle");
+                match t[0] {
+                    "append" => {
+                        let n = f.number();
+                        let r = f.append(n, &unhex(t[1]));
+                        let _ = f.sync_all();
+                        out.op(line, if r.is_ok() { "ok" } else { "err" });
+                    }
+                    "retrieve" => {
+                        let l = retrieve_line(f, t[1].parse().unwrap());
+                        out.op(line, &l);
+                    }
+                    _ => {
+                        let r = f.truncate(t[1].parse().unwrap());
+                        let _ = f.sync_all();
+                        out.op(line, if r.is_ok() { "ok" } else { "err" });
+                    }
+                }
+            }
             "cfg" => {
+                raw_mode = false;
+                cand.clear();
+                last_full = 0;
                 sim.max = t[1].parse().unwrap();
+                sim.limit = t.get(2).map(|x| x.parse().unwrap()).unwrap_or(256);
                 let _ = fs::remove_dir_all(&sim.dir);
                 fs::create_dir_all(&sim.dir).unwrap();
                 out.op(line, "ok");
             }
             "open" => {
                 sim.f = None;
-                match open_dir(&sim.dir, sim.max) {
+                match open_dir(&sim.dir, sim.max, sim.limit) {
                     Ok(mut f) => {
                         let n = Sim::check_prefix(out, &mut f, &cand, last_full, "after open");
                         out.op("open", &format!("ok {}", f.number()));
@@ -569,6 +915,9 @@ fn replay_case(out: &mut Out, base: &Path, ops: &[String]) {
             }
             "disk" => {
                 out.op("disk", &disk_line(&sim.dir));
+            }
+            "cache" => {
+                out.op("cache", &cache_line(sim.f.as_ref().expect("handle")));
             }
             "cutopen" | "cut" => {
                 let il: u64 = t[1].parse().unwrap();
@@ -637,9 +986,14 @@ pub fn run(opts: &Opts) {
             let all = opts.thorough() || c % 2 == 0;
             run_case(&mut out, &mut rng, &base, if all { n_ops } else { n_ops * 2 }, all);
         }
+        // round 6: every small directory through the real `open`, and power-loss histories
+        run_raw_exhaustive(&mut out, &base, if opts.thorough() { 3 } else { 2 });
+        for _ in 0..(if opts.thorough() { 3000 * opts.scale } else { 300 * opts.scale }) {
+            run_powerloss_case(&mut out, &mut rng, &base);
+        }
     }
     let _ = fs::remove_dir_all(&base);
-    out.finish("random append/truncate/reopen histories on the real FreezerFiles (compression off, max_file_size 20..100 bytes, item sizes biased to the rollover boundary); after every append every (index length, head-file length | missing) cut pair between the pre- and post-append sizes is materialised on a copy and re-opened; batches of 2-4 unsynced appends are cut anywhere between the pre-batch and final sizes (entry boundaries +-1, random points); a case is non-trivial iff it contains a rollover and at least one cut; distinct by (max, item-length list)");
+    out.finish("random append/truncate/reopen histories on the real FreezerFiles (compression off, max_file_size 20..100 bytes, item sizes biased to the rollover boundary); after every append every (index length, head-file length | missing) cut pair between the pre- and post-append sizes is materialised on a copy and re-opened; batches of 2-4 unsynced appends are cut anywhere between the pre-batch and final sizes (entry boundaries +-1, random points); a case is non-trivial iff it contains a rollover and at least one cut; distinct by (max, item-length list). Round 6: `raw` cases — EVERY directory with an INDEX of 0..3 entries over fid 0..1 (thorough 0..2) x offset 0..3, every data-file length 0..3, clean or 5-byte partial tail, is opened by the real build+preopen, dumped, read at every position and appended to (non-trivial iff the case has both successful and failing opens); `powerloss` cases — 5..10 appends over several data files, then 1..3 data files (an OLDER one first) cut to a prefix biased to entry boundaries, sometimes the INDEX too, re-opened, every item read, then a truncate into the damaged region (non-trivial iff an older file was really shortened)");
 }
 
 /// Stream `top`: the real `ckb_freezer::Freezer` (freezer/src/freezer.rs) — `open` on a directory,
@@ -665,6 +1019,16 @@ pub fn run(opts: &Opts) {
 ///   fork <idxLen> <fid> <len|rm>                  -> ok      alt := snapshot cut to these lengths (closed)
 ///   cut <idxLen> <fid> <len|rm>                   -> ok      main directory cut (closed); `open` follows
 ///   same                                          -> same | diff   alt and main hold the same content
+///   race <thrA> <startA> <idsA> <n0T> <k> <n0B> <thrB> <startB> <idsB> <TB|BT>
+///        -> A=<ok:map|err> T=<ok|err> B=<ok:map|err> n=<number> tip=<tip>
+///        (round 6) three real threads on one `Freezer`: A = `freeze(thrA)` is held inside its first
+///        `get_block_by_number` call (it owns the lock) while T = `truncate(k)` (k = 0: none) and then
+///        B = `freeze(thrB)` are started — both read `number` and park on the lock — then A goes on.
+///        <n0B> = the pre-lock `number` B read (the first height it asks for), <n0T> = the one T read,
+///        TB/BT = the order in which T and B got the lock (`number` seen under B's lock); the model
+///        runs freeze; then truncateFrom n0T / freezeFrom n0B in that order
+///   [alt ]freezestale <n0> <thr> <stop> <start> <ids>, [alt ]truncatestale <n0> <i>   (model-side
+///        single steps of the same; not generated)
 mod top {
     use super::{apply_cut, copy_dir, file_name, read_index, unhex};
     use crate::common::*;
@@ -1043,6 +1407,155 @@ mod top {
             out.count(if alt { "alt-freeze" } else { "freeze" });
         }
 
+        /// reference for the oracle: what a freeze whose pre-lock read was `n0` appends to a
+        /// freezer holding `expect` (nothing unless `n0` is current)
+        fn ref_freeze(&self, expect: &[u64], n0: u64, thr: u64, start: u64, ids: &[u64]) -> Vec<u64> {
+            let mut new = vec![];
+            if n0 != expect.len() as u64 + 1 {
+                return new;
+            }
+            let mut tip = expect.last().map(|id| self.hash_of(*id));
+            let mut h = n0;
+            while h < thr {
+                if h < start { break; }
+                let id = match ids.get((h - start) as usize) { Some(0) | None => break, Some(&id) => id };
+                let b = &self.blks[id as usize - 1];
+                if let Some(t) = &tip {
+                    if *t != b.view.parent_hash() { break; }
+                }
+                new.push(id);
+                tip = Some(b.view.hash());
+                h += 1;
+            }
+            new
+        }
+
+        /// round 6: the real race (see the protocol comment)
+        #[allow(clippy::too_many_arguments)]
+        pub fn op_race(&mut self, out: &mut Out, thr_a: u64, start_a: u64, ids_a: &[u64], k: u64, thr_b: u64, start_b: u64, ids_b: &[u64]) {
+            use std::sync::atomic::{AtomicBool, AtomicU64};
+            use std::time::Duration;
+            let f = self.main.f.take().expect("race on a closed slot");
+            let number0 = f.number();
+            let serve = |ids: &[u64], start: u64, h: u64| -> Option<u64> {
+                if h < start { return None; }
+                match ids.get((h - start) as usize) { Some(0) | None => None, Some(&id) => Some(id) }
+            };
+            let a_first = AtomicBool::new(false);
+            let a_inside = AtomicBool::new(false);
+            let go = AtomicBool::new(false);
+            let b_first = AtomicU64::new(u64::MAX);
+            let b_seen = AtomicU64::new(u64::MAX);
+            let blks = &self.blks;
+            let fr = &f;
+            let (ra, rt, rb) = std::thread::scope(|sc| {
+                let ha = sc.spawn(|| {
+                    std::panic::catch_unwind(std::panic::AssertUnwindSafe(|| {
+                        fr.freeze(thr_a, |h| {
+                            if !a_first.swap(true, Ordering::SeqCst) {
+                                a_inside.store(true, Ordering::SeqCst);
+                                while !go.load(Ordering::SeqCst) {
+                                    std::thread::sleep(Duration::from_micros(100));
+                                }
+                            }
+                            serve(ids_a, start_a, h).map(|id| blks[id as usize - 1].view.clone())
+                        })
+                    }))
+                });
+                while !a_inside.load(Ordering::SeqCst) && !ha.is_finished() {
+                    std::thread::sleep(Duration::from_micros(50));
+                }
+                let ht = if k > 0 {
+                    let h = sc.spawn(|| std::panic::catch_unwind(std::panic::AssertUnwindSafe(|| fr.truncate(k))));
+                    std::thread::sleep(Duration::from_millis(2));
+                    Some(h)
+                } else {
+                    None
+                };
+                let hb = sc.spawn(|| {
+                    std::panic::catch_unwind(std::panic::AssertUnwindSafe(|| {
+                        fr.freeze(thr_b, |h| {
+                            if b_first.load(Ordering::SeqCst) == u64::MAX {
+                                b_first.store(h, Ordering::SeqCst);
+                                b_seen.store(fr.number(), Ordering::SeqCst);
+                            }
+                            serve(ids_b, start_b, h).map(|id| blks[id as usize - 1].view.clone())
+                        })
+                    }))
+                });
+                std::thread::sleep(Duration::from_millis(2));
+                go.store(true, Ordering::SeqCst);
+                let ra = ha.join().unwrap();
+                let rt = ht.map(|h| h.join().unwrap());
+                let rb = hb.join().unwrap();
+                (ra, rt, rb)
+            });
+            // ---- what was observed
+            let n0_b = match b_first.load(Ordering::SeqCst) { u64::MAX => number0, h => h };
+            let n0_t = if k > 0 { number0 } else { 0 };
+            let t_first = k > 0 && b_seen.load(Ordering::SeqCst) == k + 1;
+            if n0_b != number0 { out.count("race-b-read-late"); }
+            // ---- reference content
+            let mut expect = self.main.expect.clone();
+            let new_a = self.ref_freeze(&expect, number0, thr_a, start_a, ids_a);
+            expect.extend(new_a.iter());
+            let trunc = |e: &mut Vec<u64>| { if k >= 1 && (k as usize) < e.len() && k + 1 < n0_t { e.truncate(k as usize); } };
+            let stale_b;
+            if t_first {
+                trunc(&mut expect);
+                stale_b = n0_b != expect.len() as u64 + 1;
+                let nb = self.ref_freeze(&expect, n0_b, thr_b, start_b, ids_b);
+                expect.extend(nb.iter());
+            } else {
+                stale_b = n0_b != expect.len() as u64 + 1;
+                let nb = self.ref_freeze(&expect, n0_b, thr_b, start_b, ids_b);
+                expect.extend(nb.iter());
+                trunc(&mut expect);
+            }
+            if stale_b { out.count("race-freeze-stale-number"); }
+            if t_first { out.count("race-truncate-before-stale-freeze"); }
+            let fmt = |r: &std::thread::Result<Result<std::collections::BTreeMap<packed::Byte32, (u64, u32)>, ckb_error::Error>>| -> String {
+                match r {
+                    Ok(Ok(map)) => {
+                        let mut ents: Vec<(u64, String, u32)> = map.iter().map(|(h, (n, t))| (*n, self.by_hash.get(h).map(|i| i.to_string()).unwrap_or("?".into()), *t)).collect();
+                        ents.sort();
+                        let l: Vec<String> = ents.iter().map(|(n, id, t)| format!("{id}:{n}:{t}")).collect();
+                        format!("ok:{}", if l.is_empty() { "-".to_string() } else { l.join(",") })
+                    }
+                    Ok(Err(_)) => "err".into(),
+                    Err(_) => "panic".into(),
+                }
+            };
+            let t_ans = match &rt { None | Some(Ok(Ok(()))) => "ok", Some(Ok(Err(_))) => "err", Some(Err(_)) => "panic" };
+            let ids_s = |ids: &[u64]| if ids.is_empty() { "-".to_string() } else { ids.iter().map(|i| i.to_string()).collect::<Vec<_>>().join(",") };
+            let op = format!("race {} {} {} {} {} {} {} {} {} {}", thr_a, start_a, ids_s(ids_a), n0_t, k, n0_b, thr_b, start_b, ids_s(ids_b), if t_first { "TB" } else { "BT" });
+            let ans = format!("A={} T={} B={} n={} tip={}", fmt(&ra), t_ans, fmt(&rb), f.number(), self.tip_id(&f));
+            // ---- oracle on the implementation alone: whatever the interleaving, the freezer holds
+            // ONE linked chain that is what the serialised operations leave, nothing of a stale read
+            if matches!(ra, Err(_)) || matches!(rb, Err(_)) || matches!(rt, Some(Err(_))) {
+                out.oracle_fail("top-race-panics", &op);
+            }
+            if matches!(rt, Some(Ok(Err(_)))) {
+                out.oracle_fail("top-race-truncate-fails", &op);
+            }
+            if stale_b {
+                if let Ok(Ok(map)) = &rb {
+                    if !map.is_empty() {
+                        out.oracle_fail("top-race-stale-freeze-reports-blocks", &op);
+                    }
+                }
+            }
+            if f.number() != expect.len() as u64 + 1 {
+                out.oracle_fail("top-race-number", &format!("{op}: number={} expected={}", f.number(), expect.len() + 1));
+            }
+            self.main.expect = expect.clone();
+            self.main.min_keep = expect.len();
+            self.check_chain(out, &f, &expect, expect.len(), &format!("after {op}"));
+            self.main.f = Some(f);
+            out.op(&op, &ans);
+            out.count("race");
+        }
+
         pub fn op_retrieve(&mut self, out: &mut Out, alt: bool, i: u64) {
             let op = format!("{}retrieve {}", Self::pre(alt), i);
             let expect = self.slot(alt).expect.clone();
@@ -1284,7 +1797,38 @@ mod top {
             let expect = sim.main_expect().to_vec();
             let l = expect.len() as u64;
             let tip = expect.last().copied().unwrap_or(0);
-            match rng.below(20) {
+            match rng.below(22) {
+                20..=21 => {
+                    // round 6: real threads racing on the lock (see `op_race`)
+                    if l >= 3 && rng.chance(1, 2) {
+                        // truncate (a reorg) racing a freeze that serves the old branch
+                        let k = rng.range(1, l - 1);
+                        // B serves the old branch's continuation — or (half of the time) a block
+                        // that LINKS to the block the truncate keeps, at the stale height: then
+                        // only `append`'s "unexpected number" test stands between it and the files
+                        let on = if rng.chance(1, 2) { expect[k as usize - 1] } else { tip };
+                        let ids_b = grow(&mut sim, out, rng, on, l + 1, 2, big, 0);
+                        sim.op_race(out, l + 2, l + 1, &[], k, l + 3, l + 1, &ids_b);
+                        shape.push(format!("rT{k}"));
+                        // afterwards the branch that links to the kept tip is frozen normally
+                        let expect = sim.main_expect().to_vec();
+                        let l2 = expect.len() as u64;
+                        let ids = grow(&mut sim, out, rng, expect.last().copied().unwrap_or(0), l2 + 1, 2, big, 0);
+                        sim.op_freeze(out, false, l2 + 3, Stop::No, l2 + 1, &ids);
+                    } else {
+                        // two freezes that read the same `number`
+                        let k = rng.range(2, 4);
+                        let ids = grow(&mut sim, out, rng, tip, l + 1, k, big, 0);
+                        let ka = rng.range(0, k - 1);
+                        // B's source serves the same heights — or (half of the time) is shifted so
+                        // that at the STALE height it serves the block that links to A's new tip
+                        // (the parent-hash test passes; `append`'s number test must refuse it)
+                        let start_b = if rng.chance(1, 2) && l + 1 > ka { l + 1 - ka } else { l + 1 };
+                        sim.op_race(out, l + 1 + ka, l + 1, &ids, 0, l + 1 + k, start_b, &ids);
+                        shape.push(format!("rF{ka}/{k}"));
+                        sim.op_freeze(out, false, l + 1 + k, Stop::No, l + 1, &ids);
+                    }
+                }
                 0..=8 => {
                     // freeze a new stretch on the tip — interrupted, crashed at every sampled cut
                     // and continued on a fork, then completed crash-free on the main freezer
@@ -1442,6 +1986,10 @@ mod top {
                     s.op_cut(out, il, fid, fl);
                 }
                 "same" => s.op_same(out),
+                "race" => {
+                    let ids = |x: &str| -> Vec<u64> { if x == "-" { vec![] } else { x.split(',').map(|v| v.parse().unwrap()).collect() } };
+                    s.op_race(out, t[1].parse().unwrap(), t[2].parse().unwrap(), &ids(t[3]), t[5].parse().unwrap(), t[7].parse().unwrap(), t[8].parse().unwrap(), &ids(t[9]));
+                }
                 _ => panic!("bad replay op {line}"),
             }
         }
@@ -1557,6 +2105,6 @@ mod top {
             // every fourth history is long (more data files, deeper truncations, more re-opens)
             run_case(out, &mut rng, base, if c % 4 == 3 { n_ops * 2 + 2 } else { n_ops }, extra);
         }
-        "stream top: random histories on the real ckb_freezer::Freezer (real snappy, real packed blocks built with BlockBuilder: 0-2 transactions, compressible and incompressible payloads, optional extension; max_file_size 150..3000 and handle-LRU capacity 2/3/256 through the verif_set_limits hook): freeze of parent-linked stretches with a broken link / a missing block / a header number that is not the height at a random position, thresholds below, at and beyond the served stretch, stop flag before or during the call, sources that serve already frozen heights again; every freeze is interrupted (threshold or stop flag), snapshotted, completed, and the snapshot is cut at sampled (index length, head-file length | missing) pairs between the pre-freeze and the snapshot sizes, re-opened with Freezer::open and frozen again to the same threshold (content compared with the crash-free run); truncate at every edge followed by freezing another branch; re-opens; destructive crashes of the main freezer. Non-trivial iff the case has a data-file rollover inside a freeze and at least one crash fork; distinct by (max, lru, op shape)"
+        "stream top: random histories on the real ckb_freezer::Freezer (real snappy, real packed blocks built with BlockBuilder: 0-2 transactions, compressible and incompressible payloads, optional extension; max_file_size 150..3000 and handle-LRU capacity 2/3/256 through the verif_set_limits hook): freeze of parent-linked stretches with a broken link / a missing block / a header number that is not the height at a random position, thresholds below, at and beyond the served stretch, stop flag before or during the call, sources that serve already frozen heights again; every freeze is interrupted (threshold or stop flag), snapshotted, completed, and the snapshot is cut at sampled (index length, head-file length | missing) pairs between the pre-freeze and the snapshot sizes, re-opened with Freezer::open and frozen again to the same threshold (content compared with the crash-free run); truncate at every edge followed by freezing another branch; re-opens; destructive crashes of the main freezer; round 6: REAL THREADS racing on one Freezer (op race): a freeze held inside its first get_block_by_number call while a truncate and/or a second freeze read `number` and park on the lock — the stale pre-lock read is observed (first height asked, number seen under the lock) and replayed on the model as freezeFrom/truncateFrom in the observed lock order. Non-trivial iff the case has a data-file rollover inside a freeze and at least one crash fork; distinct by (max, lru, op shape)"
     }
 }
